@@ -13,12 +13,14 @@
 (* parent(), join()) and the kernel's view (component-stack resolution: `..` pops) are modelled       *)
 (* separately because they differ exactly where escapes live (`a/..`, trailing `.`, `//`).            *)
 (*                                                                                                    *)
-(* Guard = FALSE is the code as written; Guard = TRUE is the intended behaviour (an entry whose       *)
-(* system path has a ParentDir / RootDir / Prefix component is skipped and counted as an error, the   *)
-(* rule security.rs:validate_file_path states).                                                       *)
+(* Guard = TRUE is the code as written since /repo commit 97c8245 (extraction_path(): an entry whose   *)
+(* system path has a ParentDir / RootDir / Prefix component is refused and counted as a failed entry,  *)
+(* in both the plain and the --patch branch).  Guard = FALSE enables the named deviation              *)
+(* `BeginUnguarded` (the code before that commit: join without looking at the components); TLC refutes *)
+(* `Contained` for it and establishes exactly which entries escape (EscapesUnguarded).                 *)
 EXTENDS Integers, Sequences, FiniteSets, SequencesExt, TLC
 
-CONSTANTS Guard,        \* BOOLEAN: reject ParentDir/RootDir/Prefix components before joining
+CONSTANTS Guard,        \* BOOLEAN: TRUE = as coded (bad components refused); FALSE = deviation BeginUnguarded allowed
           Plat          \* "posix" | "windows"  (only posix is bound to the implementation)
 
 \* ---------------------------------------------------------------------------------------------------
@@ -131,15 +133,23 @@ SkipGuarded ==
     /\ UNCHANGED <<vall, vopt, vst, vtarget, vrest, vstack, vfloor, vdirs, vfiles, vtouched>>
 
 \* build the target; `if let Some(parent) = output_path.parent() { create_dir_all(parent) }`
-Begin ==
-    /\ vst = "idle" /\ vpend # <<>> /\ ~Dropped(Head(vpend))
-    /\ ~(Guard /\ BadForGuard(Head(vpend)))
-    /\ LET t == Target(Head(vpend), vopt.preserve, vopt.form) IN
+BeginWith(n) ==
+    /\ LET t == Target(n, vopt.preserve, vopt.form) IN
        /\ vtarget' = t
        /\ vrest' = IF RsHasParent(t) THEN Body(RsParent(t)) ELSE <<>>
        /\ vstack' = StartOf(t) /\ vfloor' = FloorOf(t)
     /\ vst' = "mkdir"
     /\ UNCHANGED <<vall, vopt, vpend, vdirs, vfiles, vtouched, verrs>>
+\* as coded: only entries made of Normal / CurDir components get this far
+Begin ==
+    /\ vst = "idle" /\ vpend # <<>> /\ ~Dropped(Head(vpend))
+    /\ ~BadForGuard(Head(vpend))
+    /\ BeginWith(Head(vpend))
+\* DEVIATION (the code before 97c8245): an entry with a bad component is joined like any other
+BeginUnguarded ==
+    /\ vst = "idle" /\ vpend # <<>> /\ ~Dropped(Head(vpend))
+    /\ ~Guard /\ BadForGuard(Head(vpend))
+    /\ BeginWith(Head(vpend))
 
 \* create_dir_all walks the parent: every Normal component is entered, created when missing
 MkdirStep ==
@@ -199,7 +209,7 @@ Finish ==
     /\ vst' = "done"
     /\ UNCHANGED <<vall, vopt, vpend, vtarget, vrest, vstack, vfloor, vdirs, vfiles, vtouched, verrs>>
 
-Next == ListfileDrop \/ SkipGuarded \/ Begin \/ MkdirStep \/ MkdirFail \/ MkdirDone \/ WriteFile \/ WriteFail \/ Finish
+Next == ListfileDrop \/ SkipGuarded \/ Begin \/ BeginUnguarded \/ MkdirStep \/ MkdirFail \/ MkdirDone \/ WriteFile \/ WriteFail \/ Finish
 
 \* ---------------------------------------------------------------------------------------------------
 \* the property, and what TLC establishes about the two variants
@@ -207,7 +217,7 @@ Next == ListfileDrop \/ SkipGuarded \/ Begin \/ MkdirStep \/ MkdirFail \/ MkdirD
 Contained == \A p \in vtouched : Below(OutAbs, p)
 Escaped   == ~Contained
 
-\* Independent characterisation of the escaping entries of the code as written (no stack machine):
+\* Independent characterisation of the escaping entries of the unguarded deviation (no stack machine):
 \* a Normal component that is materialised (as a directory: it is not the component parent() strips;
 \* or as the file: it is the last raw component) while the walk is outside `out`.  The walk is
 \* outside once the path is anchored, or once the running depth (#Normal - #`..`) went negative.
@@ -216,7 +226,7 @@ OutsideBefore(cs, i) == Anchored(cs) \/ \E j \in 1..(i - 1) : Depth(cs, j) < 0
 LastKept(cs) == LET keep == {i \in 1..Len(cs) : cs[i] \notin {"E", "D"} /\ ~(i = 1 /\ Anchored(cs))} IN
                 IF keep = {} THEN 0 ELSE CHOOSE i \in keep : \A j \in keep : j <= i
 Materialised(cs, i) == IsNormalTok(cs[i]) /\ ~(i = 1 /\ HasPrefix(cs)) /\ (i # LastKept(cs) \/ i = Len(cs))
-EscapesAsCoded(cs, preserve, explicit) ==
+EscapesUnguarded(cs, preserve, explicit) ==
     /\ preserve /\ (explicit \/ cs # <<"E">>)
     /\ \E i \in 1..Len(cs) : Materialised(cs, i) /\ OutsideBefore(cs, i)
 
@@ -247,17 +257,17 @@ AbortsAlone(cs, opt, guard) ==
 
 SingleEntry == Len(vall) = 1
 Terminal == vst \in {"done", "aborted"}
-\* as coded: an escape happens exactly for the characterised entries (single-entry runs from a clean fs)
+\* deviation: an escape happens exactly for the characterised entries (single-entry runs from a clean fs)
 EscapeCharacterised ==
-    SingleEntry => /\ Escaped => EscapesAsCoded(vall[1], vopt.preserve, vopt.explicit)
-                   /\ Terminal => (Escaped <=> EscapesAsCoded(vall[1], vopt.preserve, vopt.explicit))
-\* as coded, multi-entry: whoever escapes is a characterised entry of the run
+    SingleEntry => /\ Escaped => EscapesUnguarded(vall[1], vopt.preserve, vopt.explicit)
+                   /\ Terminal => (Escaped <=> EscapesUnguarded(vall[1], vopt.preserve, vopt.explicit))
+\* deviation, multi-entry: whoever escapes is a characterised entry of the run
 EscapeOnlyByCharacterised ==
-    Escaped => \E i \in 1..Len(vall) : EscapesAsCoded(vall[i], vopt.preserve, vopt.explicit)
+    Escaped => \E i \in 1..Len(vall) : EscapesUnguarded(vall[i], vopt.preserve, vopt.explicit)
 \* the guard is not only sufficient but rejects nothing harmless it need not: every escaping entry has a bad component
 GuardCoversEscapes == \A i \in 1..Len(vall) :
-    EscapesAsCoded(vall[i], vopt.preserve, vopt.explicit) => BadForGuard(vall[i])
-\* without --preserve-paths the code as written is already contained
+    EscapesUnguarded(vall[i], vopt.preserve, vopt.explicit) => BadForGuard(vall[i])
+\* without --preserve-paths even the deviation is contained
 FlattenContained == ~vopt.preserve => Contained
 \* the fold and the machine agree (single entry, terminal state)
 PredictionMatchesMachine == (SingleEntry /\ Terminal) => vtouched = PredictTouched(vall[1], vopt, Guard)
